@@ -370,6 +370,17 @@ br_ssl_engine_set_buffer(br_ssl_engine_context *rc,
 			if (buf_len < (512 + MAX_IN_OVERHEAD
 				+ 512 + MAX_OUT_OVERHEAD))
 			{
+				/*
+				 * Forget the buffers of a previous use of
+				 * this context: the caller replaced them,
+				 * and the reset that must follow this call
+				 * would otherwise clear the error and run
+				 * the engine in the old memory.
+				 */
+				rc->ibuf = NULL;
+				rc->ibuf_len = 0;
+				rc->obuf = NULL;
+				rc->obuf_len = 0;
 				rc->iomode = BR_IO_FAILED;
 				rc->err = BR_ERR_BAD_PARAM;
 				return;
